@@ -1698,7 +1698,9 @@ func (p *Program) isNonNilError(v ssa.Value) bool {
 func (p *Program) globalIsConstError(g *ssa.Global) bool {
 	if g.Pkg != nil && !strings.HasPrefix(g.Pkg.Pkg.Path(), modPath) {
 		switch g.Pkg.Pkg.Path() + "." + g.Name() {
-		case "io.ErrUnexpectedEOF", "io.EOF":
+		case "io.ErrUnexpectedEOF", "io.EOF", "io.ErrShortBuffer", "io.ErrShortWrite", "io.ErrNoProgress", "io.ErrClosedPipe",
+			"os.ErrInvalid", "os.ErrClosed", "os.ErrDeadlineExceeded", "net.ErrClosed", "bufio.ErrBufferFull",
+			"strconv.ErrRange", "strconv.ErrSyntax", "context.Canceled", "context.DeadlineExceeded":
 			return true
 		}
 		return false
